@@ -21,6 +21,10 @@ CLAIMED = {
    "Every ordered pair of a lattice operand alphabet (3x3: points, segments, paths, all simple polygons, Multi*, collections with pairwise-disjoint members, empties of every type; 6x6 holes family; star family of MultiLineStrings in every member order; exact affine images) is run through Relate in both orders and through all nine named predicates plus Intersects, and compared with the DE-9IM read off an exact joint arrangement (rational arithmetic, cells located by the OGC definitions); RelateMatches is checked against its definition on all 4^9 matrices.",
    "Trust: exact/ + oracle/pair.go (independent of the library's DCEL). Operands above ~9 vertices per member and coordinates outside the listed affine images are outside the bound; general-position float images are covered in C01/C09's float strides only.",
    "bounded-exhaustive input enumeration on the real code against an exact-arithmetic DE-9IM oracle", "4/C02"),
+ "C01": ("model_checking",
+   "Every pair of a lattice operand alphabet of all seven types (3x3 alphabet incl. collections with overlapping members and empties; 6x6 holes family; UnionMany over every triple of a reduced alphabet; exact affine images; general-position float images kept only when the exact arrangement clearance is >= 2e-6 x magnitude) is run through Union, Intersection, Difference, SymmetricDifference in both operand orders, UnaryUnion and UnionMany, and each result is compared with the closure of the Boolean combination computed on the exact joint arrangement: membership of every face / edge / vertex cell, area, lineal length, isolated point count, validity and canonical shape, plus inclusion-exclusion and partition laws on the library's own areas.",
+   "Trust: exact/ + oracle/pair.go. Edge and vertex cells are compared with tolerance 1e-9 x magnitude (the library rounds crossing points); face probes exactly. Members above ~9 vertices and sub-tolerance near-degenerate inputs are outside the bound (the latter by the property).",
+   "bounded-exhaustive input enumeration on the real code against an exact-arithmetic arrangement oracle", "4/C01"),
 }
 
 PENDING = {}
